@@ -122,6 +122,10 @@ def relayouts(src, rnd):
 DROP_PROBES = {
     "continue": ("x = 0\nfor i in range(3):\n    if i == 1:\n        continue\n    x = x + 1\n", "continue"),
     "subscript-assignment": ("vals = [1, 2, 3]\nvals[0] = 5\ny = vals[0]\n", "5"),
+    "while-with-pass-body": ("from Reduino.Sensors import Potentiometer\npot = Potentiometer('A0')\nwhile pot.read() < 512:\n    pass\n", "while ("),
+    "for-with-pass-body": ("for i in range(3):\n    pass\n", "for ("),
+    "while-with-comment-only-body": ("from Reduino.Sensors import Button\nb = Button(4)\nwhile not b.is_pressed():\n    # wait\n    pass\n", "while ("),
+    "if-with-pass-body-keeps-else": ("x = 1\nif x > 5:\n    pass\nelse:\n    x = 7\n", "else"),
     "del": ("x = 1\ndel x\n", "x"),
     "unknown-method-on-device": ("from Reduino.Actuators import Led\nled = Led(13)\nled.explode(3)\n", "explode"),
     "augmented-attribute": ("from Reduino.Actuators import Led\nled = Led(13)\nled.brightness += 1\n", "brightness"),
